@@ -429,6 +429,7 @@ def proof_stage(chk, prop_modules, extra_targets=("pvdriver",), thorough_leanche
     driver_ok = True
     detail = []
     if ext_problems:
+        # a fact could not be regenerated from the current source: the theorems no longer speak about this code
         detail += ["extractor: " + p for p in ext_problems]
     if not ok:
         detail.append("lake build failed:\n" + "\n".join(l for l in out.splitlines() if "error" in l.lower())[:3000])
@@ -439,6 +440,10 @@ def proof_stage(chk, prop_modules, extra_targets=("pvdriver",), thorough_leanche
             detail.append("driver does not build either")
     thms = []
     axioms_used = set()
+    if ok and ext_problems:
+        ok = False
+        for m in prop_modules:
+            thms += theorem_names(m)
     if ok:
         a = audit(list(prop_modules))
         thms = a["theorems"]
@@ -453,7 +458,7 @@ def proof_stage(chk, prop_modules, extra_targets=("pvdriver",), thorough_leanche
                 if not cok:
                     ok = False
                     detail.append("leanchecker rejected %s: %s" % (m, cout[-500:]))
-    else:
+    elif not thms:
         for m in prop_modules:
             try:
                 thms += theorem_names(m)
